@@ -22,7 +22,7 @@ from .core import AnalysisError, src_of
 PURE_FUNCS = {'len', 'str', 'int', 'float', 'max', 'min', 'abs', 'isinstance', 'bool', 'chr', 'ord', 'round', 'repr', 'tuple', 'list', 'dict',
               'set', 'sorted', 'reversed', 'hasattr', 'getattr', 'range', 'enumerate', 'zip', 'any', 'all', 'sum', 'type', 'hex', 'callable', 'divmod'}
 PURE_METHODS = {'get', 'lower', 'upper', 'startswith', 'endswith', 'join', 'strip', 'lstrip', 'rstrip', 'split', 'rjust', 'ljust', 'zfill', 'find',
-                'index', 'count', 'replace', 'format', 'keys', 'values', 'items', 'copy', 'isdigit', 'isalpha', 'group', 'title', 'center', 'splitlines'}
+                'index', 'count', 'replace', 'format', 'keys', 'values', 'items', 'isdigit', 'isalpha', 'group', 'title', 'center', 'splitlines'}
 
 
 class Unsupported(Exception):
@@ -30,13 +30,14 @@ class Unsupported(Exception):
 
 
 class Path:
-    __slots__ = ('conds', 'env', 'events', 'ret', 'raised', 'stores', 'snaps')
+    __slots__ = ('conds', 'env', 'events', 'ret', 'raised', 'stores', 'snaps', 'exit')
 
     def __init__(self, conds=(), env=None, events=(), stores=()):
         self.conds, self.env, self.events, self.stores = conds, env or {}, events, stores
         self.ret = None
         self.raised = None
         self.snaps = {}
+        self.exit = 'end'
 
     def fork(self):
         q = Path(self.conds, dict(self.env), self.events, self.stores)
@@ -48,6 +49,62 @@ class Path:
             if s == src:
                 return pol
         return None
+
+    def resolve(self, expr, depth=8):
+        """expression with snapshot symbols replaced by what they froze and call symbols by the calls they stand for: a
+        canonical spelling over the inputs of the function, for recognising roles (it forgets evaluation time and
+        sharing, so use it to identify *what* flows somewhere, not *when* it was computed)"""
+        calls = {sym: n for sym, n, _ in self.events if sym.startswith('_c')}
+        snaps = self.snaps
+
+        class R(ast.NodeTransformer):
+            def __init__(self, d):
+                self.d = d
+
+            def visit_Name(self, node):
+                if self.d > 0 and node.id in snaps:
+                    return R(self.d - 1).visit(copy.deepcopy(snaps[node.id][1]))
+                if self.d > 0 and node.id in calls:
+                    return R(self.d - 1).visit(copy.deepcopy(calls[node.id]))
+                return node
+        return R(depth).visit(copy.deepcopy(expr))
+
+    def rsrc(self, expr):
+        return src_of(self.resolve(expr))
+
+    def rconds(self, conds=None):
+        """{resolved atom source: truth}"""
+        out = {}
+        for s, pol in (self.conds if conds is None else conds):
+            try:
+                out[self.rsrc(ast.parse(s.split('@')[0], mode='eval').body)] = pol
+            except SyntaxError:
+                out[s] = pol
+        return out
+
+    def calls(self, *names):
+        """[(sym, call node, conds)] of the call events whose callee's last name is in `names`, in execution order"""
+        out = []
+        for sym, n, conds in self.events:
+            if isinstance(n, ast.Call):
+                fn = n.func
+                nm = fn.attr if isinstance(fn, ast.Attribute) else (fn.id if isinstance(fn, ast.Name) else None)
+                if nm in names:
+                    out.append((sym, n, conds))
+        return out
+
+    def cond_map(self, unsnap_with=None):
+        """{atom source (without staleness mark): truth}"""
+        out = {}
+        for s, pol in self.conds:
+            s = s.split('@')[0]
+            if unsnap_with is not None:
+                try:
+                    s = src_of(unsnap(ast.parse(s, mode='eval').body, unsnap_with))
+                except SyntaxError:
+                    pass
+            out[s] = pol
+        return out
 
     def cond_str(self):
         return ' and '.join(('%s' if pol else 'not (%s)') % s for s, pol in self.conds) or 'always'
@@ -142,6 +199,19 @@ class SymPaths:
             return true, cur
         if isinstance(test, ast.Constant):
             return ([path], []) if test.value else ([], [path])
+        if isinstance(test, (ast.List, ast.Tuple, ast.Set)) and not any(isinstance(x, ast.Starred) for x in test.elts):
+            return ([path], []) if test.elts else ([], [path])          # a display is truthy exactly when it has elements
+        if isinstance(test, ast.Dict) and all(k is not None for k in test.keys):
+            return ([path], []) if test.keys else ([], [path])
+        if isinstance(test, ast.Name) and test.id not in path.env:
+            cv = self.p.try_const(self.f, test) if test.id not in self.f.locals else None
+            if isinstance(cv, (list, tuple, dict, str, int)) and not isinstance(cv, bool) and cv:
+                return [path], []
+            ent = self.p.resolve_name(self.f, test.id) if test.id not in self.f.locals else None
+            if ent is not None and ent.kind == 'const':
+                vals = ent.obj[2]
+                if len(vals) == 1 and isinstance(vals[0], (ast.List, ast.Tuple)) and vals[0].elts:
+                    return [path], []               # module-level constant bound once to a non-empty display
         if isinstance(test, ast.IfExp):
             t, f = self.split(test.test, path)
             T, Fa = [], []
@@ -166,19 +236,110 @@ class SymPaths:
         return [a], [b]
 
     def value_paths(self, expr, path):
-        """expand `expr`; conditional expressions split the path -> [(path, value ast)]"""
-        if isinstance(expr, ast.IfExp):
-            test = self.expand(expr.test, path)
+        """evaluate `expr` symbolically; conditional expressions and and/or in value position split the path, sub-expressions
+        are visited in evaluation order (so call events are recorded in the order they happen)  -> [(path, value ast)]"""
+        out = self.ev(expr, path)
+        if len(out) > self.max_paths:
+            raise Unsupported('expression %s splits into more than %d cases' % (src_of(expr)[:60], self.max_paths))
+        return out
+
+    def ev(self, e, path):
+        if isinstance(e, ast.IfExp):
+            test = self.expand(e.test, path)
             t, f = self.split(test, path)
             out = []
             for q in t:
-                out += self.value_paths(expr.body, q)
+                out += self.ev(e.body, q)
             for q in f:
-                out += self.value_paths(expr.orelse, q)
+                out += self.ev(e.orelse, q)
             return out
-        if isinstance(expr, ast.BoolOp) and False:
-            pass
-        return [(path, self.expand(expr, path))]
+        if isinstance(e, ast.BoolOp):
+            is_or = isinstance(e.op, ast.Or)
+            out = []
+            cur = [path]
+            for i, v in enumerate(e.values):
+                nxt = []
+                for q in cur:
+                    for q2, x in self.ev(v, q):
+                        if i == len(e.values) - 1:
+                            out.append((q2, x))
+                            continue
+                        t, f = self.split(x, q2)
+                        for q3 in (t if is_or else f):
+                            out.append((q3, x))             # short-circuit: this operand is the value
+                        nxt += (f if is_or else t)
+                cur = nxt
+            return out
+        if isinstance(e, ast.Name):
+            if isinstance(e.ctx, ast.Load) and e.id in path.env:
+                return [(path, copy.deepcopy(path.env[e.id]))]
+            return [(path, e)]
+        if isinstance(e, (ast.Constant, ast.Lambda, ast.ListComp, ast.GeneratorExp, ast.DictComp, ast.SetComp, ast.JoinedStr)):
+            return [(path, self.expand(e, path))]
+        if isinstance(e, ast.Call):
+            parts = []
+            if isinstance(e.func, ast.Attribute):
+                parts.append(e.func.value)
+            parts += list(e.args) + [k.value for k in e.keywords]
+            out = []
+            for q, vals in self._seq(parts, path):
+                n = copy.copy(e)
+                vals = list(vals)
+                if isinstance(e.func, ast.Attribute):
+                    n.func = ast.Attribute(value=vals.pop(0), attr=e.func.attr, ctx=ast.Load())
+                else:
+                    n.func = self.expand(e.func, q) if not isinstance(e.func, ast.Name) else (copy.deepcopy(q.env[e.func.id]) if e.func.id in q.env else e.func)
+                n.args = vals[:len(e.args)]
+                n.keywords = [ast.keyword(arg=k.arg, value=v) for k, v in zip(e.keywords, vals[len(e.args):])]
+                if self.is_pure_call(n):
+                    out.append((q, n))
+                else:
+                    self.ncall += 1
+                    sym = '_c%d' % self.ncall
+                    q.events = q.events + ((sym, n, q.conds),)
+                    out.append((q, ast.Name(id=sym, ctx=ast.Load())))
+            return out
+        # generic node: children in evaluation order
+        fields = []
+        for name in e._fields:
+            v = getattr(e, name, None)
+            if isinstance(v, ast.expr):
+                fields.append((name, None, v))
+            elif isinstance(v, list):
+                for i, x in enumerate(v):
+                    if isinstance(x, ast.expr):
+                        fields.append((name, i, x))
+        if not fields:
+            return [(path, e)]
+        out = []
+        for q, vals in self._seq([x for _, _, x in fields], path):
+            n = copy.copy(e)
+            for name in e._fields:
+                if isinstance(getattr(e, name, None), list):
+                    setattr(n, name, list(getattr(e, name)))
+            for (name, i, _), v in zip(fields, vals):
+                if i is None:
+                    setattr(n, name, v)
+                else:
+                    getattr(n, name)[i] = v
+            out.append((q, n))
+        return out
+
+    def _seq(self, exprs, path):
+        """evaluate expressions left to right -> [(path, [values])]"""
+        cur = [(path, [])]
+        for x in exprs:
+            nxt = []
+            for q, vals in cur:
+                rs = self.ev(x, q)
+                for k, (q2, v) in enumerate(rs):
+                    if len(rs) > 1:
+                        q2 = q2 if q2 is not q else q2
+                    nxt.append((q2, vals + [v]))
+            cur = nxt
+            if len(cur) > self.max_paths:
+                raise Unsupported('expression splits into more than %d cases' % self.max_paths)
+        return cur
 
     def assign(self, target, value, path):
         if isinstance(target, ast.Name):
@@ -332,15 +493,18 @@ class SymPaths:
         if isinstance(st, ast.Return):
             if st.value is None:
                 path.ret = ast.Constant(value=None)
+                path.exit = 'return'
                 done.append(path)
                 return []
             for q, v in self.value_paths(st.value, path):
                 q.ret = v
+                q.exit = 'return'
                 done.append(q)
             return []
         if isinstance(st, ast.Raise):
             path.raised = self.expand(st.exc, path) if st.exc is not None else ast.Constant(value=None)
             path.ret = None
+            path.exit = 'raise'
             done.append(path)
             return []
         if isinstance(st, (ast.For, ast.While)):
@@ -354,6 +518,8 @@ class SymPaths:
             self.havoc(st, path)
             return [path]
         if isinstance(st, (ast.Break, ast.Continue)):
+            path.exit = 'break' if isinstance(st, ast.Break) else 'continue'
+            done.append(path)
             return []
         raise Unsupported('statement %s in %s' % (type(st).__name__, self.f.short))
 
@@ -369,6 +535,19 @@ def summaries(project, func, inline=True, pure=(), select=None):
     for q in paths:
         q.snaps = sp.snaps
     return paths
+
+
+def block_summaries(project, func, stmts, pure=(), env=None):
+    """paths through a statement list (e.g. one iteration of a loop body); `exit` tells how each path leaves it"""
+    node = ast.FunctionDef(name='_block', args=None, body=list(stmts), decorator_list=[])
+    sp = SymPaths(project, func, node, pure=pure)
+    done = []
+    first = Path(env=dict(env or {}))
+    for q in sp.block(node.body, [first], done):
+        done.append(q)
+    for q in done:
+        q.snaps = sp.snaps
+    return done
 
 
 def touches(node, root):
@@ -390,6 +569,20 @@ def mentions(path, pred):
             if pred(n):
                 out.append(n)
     return out
+
+
+def unsnap(expr, snaps, depth=6):
+    """replace snapshot symbols by the expressions they froze (drops the information *when* the value was read; only for
+    values another rule shows to be stable, e.g. reads of a caller-owned dict that OWN-CALLER proves is never written)"""
+    class U(ast.NodeTransformer):
+        def __init__(self, d):
+            self.d = d
+
+        def visit_Name(self, node):
+            if node.id in snaps and self.d > 0:
+                return U(self.d - 1).visit(copy.deepcopy(snaps[node.id][1]))
+            return node
+    return U(depth).visit(copy.deepcopy(expr))
 
 
 def feasible(paths):
